@@ -65,7 +65,7 @@ def rangesig(rng):
     return [hexb(rng, 2048), hexb(rng, 2048), key(rng), hexb(rng, 2048)]
 
 
-def tx_desc(rng, version, in_kinds, ring, out_tagged, rct_type, n_proofs=1, extra_len=None, lr=(0, 0), rings=None):
+def tx_desc(rng, version, in_kinds, ring, out_tagged, rct_type, n_proofs=1, extra_len=None, lr=(0, 0), rings=None, prefix_rng=None):
     """in_kinds: list of 'gen'/'key'; ring: ring size of every key input (rings: one size per input instead; the RingCT parts
     follow the FIRST input, as the format prescribes); out_tagged: list of bools.
     Returns the token list of a WELL-FORMED transaction of that shape."""
@@ -73,11 +73,12 @@ def tx_desc(rng, version, in_kinds, ring, out_tagged, rct_type, n_proofs=1, extr
     rr = list(rings) if rings else [ring] * n_in
     if rr:
         ring = rr[0]
-    ins = [txin(rng, k, r) for k, r in zip(in_kinds, rr)]
-    outs = [txout(rng, t) for t in out_tagged]
+    prng = prefix_rng or rng         # prefix_rng: two calls with equal prefix_rng seeds give transactions with the SAME prefix
+    ins = [txin(prng, k, r) for k, r in zip(in_kinds, rr)]
+    outs = [txout(prng, t) for t in out_tagged]
     if extra_len is None:
-        extra_len = rng.choice([0, 1, 33, 44, 127, 128, 200, 255, 256, 16383, 16384] if rng.random() < 0.15 else [0, 1, 33, 44, 127, 128, 200])
-    prefix = [str(version), str(interesting_u64(rng))] + lst(ins) + lst(outs) + [hexb(rng, extra_len)]
+        extra_len = prng.choice([0, 1, 33, 44, 127, 128, 200, 255, 256, 16383, 16384] if prng.random() < 0.15 else [0, 1, 33, 44, 127, 128, 200])
+    prefix = [str(version), str(interesting_u64(prng))] + lst(ins) + lst(outs) + [hexb(prng, extra_len)]
     if version == 1:
         rows = [lst([signature(rng) for _ in range(r)]) for k, r in zip(in_kinds, rr) if k == "key"]
         return prefix + lst(rows) + ["none"]
